@@ -36,8 +36,19 @@ Shapes == [
 
 Ops == {"eq", "ne", "refeq", "plus", "pluseq", "elempluseq", "elemself", "rangeself", "rangeother",
         "print", "printb", "for", "spread", "destruct", "objspread", "proppluseq", "propself",
-        "callarg", "interp", "typefn", "index", "ridx", "eqnested", "forself"}
+        "callarg", "interp", "typefn", "index", "ridx", "eqnested", "forself",
+        \* a construct whose sub-expressions / targets reach the container it is working on
+        "objdestruct", "objdestructdeep", "destructdeep", "destructswap", "idxcall", "idxcallp", "keycall", "keycallp",
+        "idxassigncall", "keyassigncall", "opassigncall", "rangecall", "method", "forbody", "spreadcall",
+        "objlitcall", "destructkey"}
 X == <<120>>
+TF == <<116, 102>>
+\* tf(p): touches p (compares it with itself, reads its type, optionally prints it) and returns r
+Toucher(prints, r) ==
+    SFn(TF, <<Nm(<<112>>)>>, FALSE,
+        <<SPrint(EBin("==", Nm(<<112>>), Nm(<<112>>))), SPrint(ECall(ETProp(Nm(<<112>>), N_type), <<>>))>>
+        \o (IF prints THEN <<SPrint(Nm(<<112>>))>> ELSE <<>>)
+        \o <<SReturn(r)>>)
 Op(o, x, y) ==
     CASE o = "eq"         -> <<SPrint(EBin("==", x, y))>>
       [] o = "ne"         -> <<SPrint(EBin("!=", EList(<<x>>), EList(<<y>>)))>>
@@ -66,6 +77,34 @@ Op(o, x, y) ==
       [] o = "ridx"       -> <<SDecl(Nm(X), ERIndex(x, ENone, ENone)), SPrint(EBin("==", Nm(X), x))>>
       [] o = "eqnested"   -> <<SPrint(EBin("==", EObj(<<Pair(EStr(KK), x)>>), EObj(<<Pair(EStr(KK), y)>>)))>>
 
+      [] o = "objdestruct"     -> <<SAssign(EObj(<<Pair(EStr(KK), EProp(x, <<106>>))>>), y), SPrint(I(0))>>
+      [] o = "objdestructdeep" -> <<SDecl(EObj(<<Pair(EStr(KK), EObj(<<Pair(EStr(KK), Nm(X))>>))>>), x), SPrint(I(0))>>
+      [] o = "destructdeep"    -> <<SDecl(EPatRest(<<EPatRest(<<Nm(X), Nm(N_us)>>), Nm(N_us)>>), x), SPrint(I(0))>>
+      [] o = "destructswap"    -> <<SAssign(EPatRest(<<Idx0(x), Nm(N_us)>>), y), SAssign(EPatRest(<<Idx0(y), Nm(N_us)>>), x), SPrint(I(0))>>
+      [] o = "idxcall"         -> <<Toucher(FALSE, I(0)), SPrint(EBin("===", EIndex(x, ECall(Nm(TF), <<y>>)), y))>>
+      [] o = "idxcallp"        -> <<Toucher(TRUE, I(0)), SPrint(EBin("===", EIndex(x, ECall(Nm(TF), <<y>>)), y))>>
+      [] o = "keycall"         -> <<Toucher(FALSE, EStr(KK)), SPrint(EBin("===", EIndex(x, ECall(Nm(TF), <<y>>)), y))>>
+      [] o = "keycallp"        -> <<Toucher(TRUE, EStr(KK)), SPrint(EBin("===", EIndex(x, ECall(Nm(TF), <<y>>)), y))>>
+      [] o = "idxassigncall"   -> <<Toucher(FALSE, I(0)), SAssign(EIndex(x, ECall(Nm(TF), <<y>>)), ECall(Nm(TF), <<x>>)), SPrint(I(0))>>
+      [] o = "keyassigncall"   -> <<Toucher(TRUE, EStr(KK)), SAssign(EIndex(x, ECall(Nm(TF), <<y>>)), ECall(Nm(TF), <<x>>)), SPrint(I(0))>>
+      [] o = "opassigncall"    -> <<Toucher(FALSE, I(0)), SOpAssign(EIndex(x, ECall(Nm(TF), <<y>>)), "+", EList(<<ECall(Nm(TF), <<x>>)>>)), SPrint(I(0))>>
+      [] o = "rangecall"       -> <<Toucher(FALSE, I(0)), SDecl(Nm(X), ERIndex(x, ECall(Nm(TF), <<y>>), ENone)),
+                                    SAssign(ERIndex(x, ECall(Nm(TF), <<y>>), ECall(Nm(TF), <<x>>)), EList(<<>>)), SPrint(I(0))>>
+      [] o = "method"          -> <<SAssign(EIndex(x, EStr(<<109>>)),
+                                            EFunc(<<Nm(<<112>>)>>, FALSE,
+                                                  <<SPrint(EBin("==", Nm(<<112>>), EVar(N_this))),
+                                                    SAssign(EProp(EVar(N_this), <<110>>), Nm(<<112>>)), SReturn(I(3))>>)),
+                                    SPrint(ECall(EProp(x, <<109>>), <<y>>)), SPrint(ECall(EIndex(x, EStr(<<109>>)), <<x>>))>>
+      [] o = "forbody"         -> <<SFor(Nm(X), x, <<SPrint(EBin("==", x, y)), SPrint(ECall(ETProp(Nm(X), N_type), <<>>))>>),
+                                    SFor(Nm(X), y, <<SAssign(Idx0(x), Nm(X))>>), SPrint(I(0))>>
+      [] o = "spreadcall"      -> <<SFn(TF, <<Nm(<<112>>), Nm(<<113>>)>>, TRUE,
+                                        <<SPrint(EBin("==", Nm(<<113>>), Nm(<<112>>))), SReturn(Nm(<<113>>))>>),
+                                    SDecl(Nm(X), ECallOf(Nm(TF), <<Item(y), Spread(x)>>)), SPrint(EBin("===", Nm(X), x))>>
+      [] o = "objlitcall"      -> <<Toucher(FALSE, EStr(KK)),
+                                    SDecl(Nm(X), EObj(<<PSpread(x), Pair(ECall(Nm(TF), <<x>>), y), PSpread(y)>>)), SPrint(I(0))>>
+      [] o = "destructkey"     -> <<Toucher(FALSE, EStr(KK)),
+                                    SDecl(EObj(<<Pair(ECall(Nm(TF), <<x>>), Nm(X))>>), y), SPrint(I(0))>>
+
 \* zero divisors (and a zero dividend) in every operator form
 ZeroForms == {"plain", "var", "elem", "prop"}
 ZeroProg(op, form, n, d) ==
@@ -79,6 +118,12 @@ C02Params ==
     { <<"alias", sh, o, ord, 0>> : sh \in DOMAIN Shapes, o \in Ops, ord \in {"ab", "ba", "aa"} }
     \cup { <<"zero", op, f, n, d>> : op \in {"/", "%"}, f \in ZeroForms, n \in {-7, 0, 7}, d \in {-2, 0, 3} }
 
+\* printing a value while a construct is working on it (never "contains itself" for a value that does not)
+PrintOps == {"idxcallp", "keycallp", "keyassigncall", "print", "printb", "forbody", "method", "callarg", "destructkey",
+             "objlitcall", "spreadcall"}
+C02PrintParams ==
+    { <<"alias", sh, o, ord, 0>> : sh \in {"same", "inside", "inside2", "shared", "objsame", "nested"}, o \in PrintOps,
+                                   ord \in {"ab", "ba", "aa"} }
 C02ProgOf(p) ==
     CASE p[1] = "alias" ->
             Shapes[p[2]] \o
